@@ -113,7 +113,9 @@ def tree_objects(draw, max_leaves, min_leaves=1, n_taxa=None):
     ndec = [[draw(st.integers(0, nn - 1)), draw(decor(builtin=("label",), refs=True, owner_edge=True))] for _ in range(k_dec)]
     k_dec = draw(st.integers(0, min(2, nn)))
     edec = [[draw(st.integers(0, nn - 1)), draw(decor(builtin=("length", "label")))] for _ in range(k_dec)]
+    elabels = [[draw(st.integers(0, nn - 1)), "e%d" % q] for q in range(draw(st.integers(0, 2)))]
     obj = {"kind": "tree", "spec": spec, "lenpat": sl["lenpat"], "rooted": draw(st.sampled_from([True, False, None])),
+           "elabels": elabels, "length_type": draw(st.sampled_from([None, None, "float"])),
            "label": draw(st.sampled_from([None, "t1", "a tree"])), "weight": draw(st.sampled_from([None, None, 1.0, 0.25, 3])),
            "tdec": draw(decor(builtin=("label", "weight"), refs=True)), "ndec": ndec, "edec": edec,
            "enc": draw(st.sampled_from([None, None, {"mutable": False, "maps": False}, {"mutable": False, "maps": True},
@@ -310,6 +312,10 @@ def build_tree_obj(obj, ns=None, taxa=None):
     if problems:
         raise runner.HarnessError("built tree is malformed: %r" % problems)
     nodes = list(rt.obj)
+    for k, lab in obj.get("elabels", []):
+        nodes[k % len(nodes)]._edge.label = lab
+    if obj.get("length_type") is not None:
+        tree.length_type = obj["length_type"]
     decorate(tree, obj.get("tdec"), nodes)
     for k, dec in obj.get("ndec", []):
         decorate(nodes[k % len(nodes)], dec, nodes, edge_of=lambda nd: nd._edge)
@@ -698,7 +704,7 @@ def mutate_tree(ctx, tree, mut, tag, label_suffix=""):
                 tree.prune_taxa_with_labels([lv[sel % len(lv)].taxon.label], update_bipartitions=flag)
             elif kind == "ladderize":
                 tree.ladderize(ascending=flag)
-            elif kind == "scale_edges" and all(x._edge.length is not None for x in nodes):
+            elif kind == "scale_edges" and any(x._edge.length for x in nodes):
                 tree.scale_edges(2.0)
             elif kind == "suppress_unifurcations":
                 tree.suppress_unifurcations(update_bipartitions=flag)
@@ -824,6 +830,8 @@ def check_tree(ctx, case):
     ctx.cls("mutation_effective" if effective else "mutation_without_effect")
     ctx.cls("tree_route:" + route)
     ctx.cls("tree_mut:" + applied)
+    if applied != mut["kind"]:
+        ctx.cls("fallback_from:tree:" + mut["kind"])
     ctx.cls("side:" + side)
     if obj.get("enc"):
         ctx.cls("tree_encoded")
@@ -1012,6 +1020,8 @@ def check_list(ctx, case):
         ctx.cls("shared_taxon_change_visible_by_design")
     ctx.cls("list_route:" + route)
     ctx.cls("list_mut:" + applied)
+    if applied != mut["kind"] and not applied.startswith("tree."):
+        ctx.cls("fallback_from:list:" + mut["kind"])
     ctx.cls("list_size:%d" % len(obj["trees"]))
     if interesting:
         ctx.nontrivial(["treelist", obj, route, case.get("foreign"), mut, case["tmut"] if applied.startswith("tree.") else None])
@@ -1168,6 +1178,8 @@ def check_matrix(ctx, case):
         ctx.cls("shared_taxon_change_visible_by_design")
     ctx.cls("matrix_route:" + route)
     ctx.cls("matrix_mut:" + applied)
+    if applied != mut["kind"]:
+        ctx.cls("fallback_from:matrix:" + mut["kind"])
     ctx.cls("matrix_type:" + obj["dtype"])
     if interesting:
         ctx.nontrivial(["matrix", obj, route, case.get("foreign"), mut])
@@ -1264,6 +1276,8 @@ def check_ns(ctx, case):
     else:
         same(ctx, after["nstaxa"], before["nstaxa"], "later_change_invisible_through_other_side", KM, mtag)
     ctx.cls("ns_mut:" + applied)
+    if applied != mut["kind"]:
+        ctx.cls("fallback_from:ns:" + mut["kind"])
     if interesting:
         ctx.nontrivial(["namespace", obj, route, mut])
     ctx.sample("namespace:" + route, {"n": obj["n"], "nsdec": obj["nsdec"], "xdec": obj["xdec"], "route": route, "mut": mut})
@@ -1282,7 +1296,7 @@ FIXED_TREE = {
     "spec": {"t": None, "lab": "root", "len": None, "ch": [
         {"t": None, "lab": "n1", "len": 0.5, "ch": [_leaf(0, 1.0), _leaf(1, 2.0)]},
         {"t": None, "lab": None, "len": 0.25, "ch": [_leaf(2, 1.0), _leaf(3, 1.5)]}]},
-    "lenpat": "dyadic", "rooted": True, "label": "fixed", "weight": 2.0,
+    "lenpat": "dyadic", "rooted": True, "label": "fixed", "weight": 2.0, "elabels": [[2, "e2"], [4, "e4"]], "length_type": "float",
     "tdec": {"ann": [["color", "red"], ["size", [1, 2]]], "subann": [[0, "note", "sub"]], "bound": [["b0", [3, 4], False], ["weight", None, False]],
              "comments": ["tree comment"], "extra": [["x0", {"ref": 1}], ["x1", [7]]]},
     "ndec": [[1, {"ann": [["pop", 10]], "bound": [["b1", 5, False], ["label", None, False], ["length", None, True]], "comments": ["c"],
